@@ -421,6 +421,18 @@ class Effects(object):
                             if rv.volatile or tt.volatile or (rv.deps & tnames) or (rv.deps & w):
                                 continue
                             gens.append(('eq', tt, rv))
+                # a, b = X  (X a local / attribute / element): a == X[0], b == X[1]
+                for t in a.targets:
+                    if isinstance(t, ast.Tuple) and isinstance(a.value, (ast.Name, ast.Attribute, ast.Subscript)) and not any(isinstance(e_, ast.Starred) for e_ in t.elts):
+                        rv0 = tb.term(a.value)
+                        tnames = set('L:' + te.id for te in t.elts if isinstance(te, ast.Name))
+                        if rv0.volatile or (rv0.deps & tnames) or (rv0.deps & w):
+                            continue
+                        for i_, te in enumerate(t.elts):
+                            if not isinstance(te, ast.Name):
+                                continue
+                            rv = tb.term(ast.Subscript(value=a.value, slice=ast.Constant(value=i_), ctx=ast.Load()))
+                            gens.append(('eq', tb.term(te), rv))
                 # x = a if c else b  /  boolean-valued rhs: no extra facts
         elif node.kind == 'iter':
             self.target_syms(a.target, w)
@@ -637,7 +649,7 @@ class Explorer(object):
             self._edge_lit[k] = self.tb.literal(node.ast, pol)
         return self._edge_lit[k]
 
-    def run(self, start=None, init=frozenset(), avoid=(), follow_exc=True, max_states=150000, relevant=None,
+    def run(self, start=None, init=frozenset(), avoid=(), follow_exc=True, max_states=800000, relevant=None,
             track=None, stop=()):
         """explore from `start` (node id; default function entry).  `avoid`: node ids not entered.
         `stop`: node ids that are recorded when reached but not expanded.
